@@ -737,6 +737,7 @@ pub mod state {
     //@   ens[open_log_file.post.path] r is Ok ==> pathbuf_view(&r->Ok_0.1) == config.file_spec.path_spec(ostr(o_infix))
     //@   ens[open_log_file.post.fresh] r is Ok ==> r->Ok_0.0@ == fresh_wview()
     //@   ens[open_log_file.post.src] r is Ok ==> r->Ok_0.0.src() == src_for(config, ostr(o_infix))
+    //@   ens[open_log_file.post.opened] r is Ok ==> opened_token()
     //@   ens[open_log_file.post.symlink] r is Ok ==> symlink_ok(config, config.file_spec.path_spec(ostr(o_infix)))
     //@   count 1 create_symlink_if_possible(
     //@   canary
@@ -844,6 +845,8 @@ pub mod state {
         //@   ens r@ == elf_result(file_spec, use_rotation, infix_filter, selector)
         //@ sig src/writers/file_log_writer/state/list_and_cleanup.rs fn remove_or_compress_too_old_logfiles
         //@   ret r
+        //@   props C07
+        //@   req[cleanup.pre.after_open] opened_token()
         //@   ens r == cleanup_result(ohandle(o_cleanup_thread_handle), cleanup_config, file_spec, infix_filter, writes_direct)
         //@ sig src/writers/file_log_writer/state/list_and_cleanup.rs fn start_cleanup_thread
         //@   ret r
